@@ -173,7 +173,7 @@ impl Peer {
     }
 
     pub fn next_step<'a>(&self, plan: &'a PeerPlan) -> Option<&'a PeerStep> {
-        plan.script.get(self.script_pos)
+        plan.script_of(self.conn).get(self.script_pos)
     }
 
     /// Bytes of the acknowledgement for an owed entry.
